@@ -2002,6 +2002,22 @@ RE_TARGET_INLINE = re.compile(
     r"""(?<!\.)\btarget\s*\(\s*(?:port\s*=\s*)?(?:['"])?\s*([A-Za-z0-9:_\-./\\~]+)\s*(?:['"])?(?:\s*,[^)]*)?\)"""
 )
 
+def _is_target_statement(line: str) -> bool:
+    """True when the statement really calls ``target(...)`` somewhere - not when
+    that text merely occurs inside a string literal."""
+
+    try:
+        tree = ast.parse(line.strip())
+    except (SyntaxError, ValueError):
+        return True
+    return any(
+        isinstance(node, ast.Call)
+        and isinstance(node.func, ast.Name)
+        and node.func.id == "target"
+        for node in ast.walk(tree)
+    )
+
+
 # Top-level control
 RE_WHILE_TRUE     = re.compile(r"^\s*while\s+True\s*:\s*$")
 RE_WHILE          = re.compile(r"^\s*while\s+(.+?)\s*:\s*$")
@@ -3188,7 +3204,7 @@ def _parse_simple_lines(
             continue
 
         inline_matches = list(RE_TARGET_INLINE.finditer(line))
-        if inline_matches:
+        if inline_matches and _is_target_statement(line):
             ctx["target_port"] = inline_matches[-1].group(1)
             i += 1
             continue
@@ -5184,7 +5200,7 @@ def _parse_program(src: str) -> Program:
             i += 1; continue
 
         inline_matches = list(RE_TARGET_INLINE.finditer(text))
-        if inline_matches:
+        if inline_matches and _is_target_statement(text):
             ctx["target_port"] = inline_matches[-1].group(1)
             i += 1; continue
 
